@@ -7,6 +7,7 @@ package syntax
 import (
 	"regexp"
 	re_syntax "regexp/syntax"
+	"strconv"
 	"unicode"
 	"unicode/utf8"
 )
@@ -100,9 +101,16 @@ func keywordToken(b []byte) ([]byte, int) {
 		case '0', '1', '2', '3', '4', '5', '6', '7', '8', '9', '-':
 			// Numeric tokens
 			if v, id := tokFloatRule(b); len(v) > 0 {
+				if !validFloat(v) {
+					return v, INVALID
+				}
 				return v, id
 			}
-			return tokIntRule(b)
+			if v, id := tokIntRule(b); len(v) > 0 && !validInt(v) {
+				return v, INVALID
+			} else {
+				return v, id
+			}
 		case '_':
 			return tokIdRule(b)
 
@@ -228,6 +236,20 @@ func regexpRule(exp string, tokid int) rule {
 	}
 }
 
+// validFloat returns true if the (syntactically valid) float literal can be
+// represented as a float64, which is what the parser assumes.
+func validFloat(b []byte) bool {
+	_, err := strconv.ParseFloat(string(b), 64)
+	return err == nil
+}
+
+// validInt returns true if the (syntactically valid) integer literal fits
+// in an int64, which is what the parser assumes.
+func validInt(b []byte) bool {
+	_, err := strconv.ParseInt(string(b), 10, 64)
+	return err == nil
+}
+
 var (
 	// double-quoted strings with escaping.
 	tokStringRule = regexpRule(
@@ -241,7 +263,7 @@ var (
 			`))*"`,
 		LITSTRING,
 	)
-	tokFloatRule = regexpRule(`^-?\d+(:?(?:\.\d+)?[eE][+-]?|\.)\d+\b`, NUM_FLOAT)
+	tokFloatRule = regexpRule(`^-?\d+(?:(?:\.\d+)?[eE][+-]?|\.)\d+\b`, NUM_FLOAT)
 	tokIntRule   = regexpRule(`^-?0*\d{1,19}\b`, NUM_INT)
 
 	// Identifiers for filetypes, stages, etc.
